@@ -66,7 +66,11 @@ def infer_redirection(url, recursive=True):
 
             # Basic relative url
             elif potential_target.startswith("/"):
-                target = urljoin(url, potential_target)
+                # NOTE: an url that cannot be parsed redirects nowhere
+                try:
+                    target = urljoin(url, potential_target)
+                except ValueError:
+                    target = None
 
             # Idiotic youtube redirections
             elif "youtube.com/redirect?" in url:
